@@ -1291,6 +1291,7 @@ class Translator:
                         except ExtractError:
                             return 'opaque'
                     macro = re.sub(r'\\T(\d)', argtype, macro)
+                    macro = macro.replace('\\N', str(len([a for a in args if a.get('kind') != 'CXXDefaultArgExpr'])))
                     macro = re.sub(r'\\(\d)', lambda g: ident(mrx.group(int(g.group(1))) or ''), macro)
                 al = []
                 if obj is not None:
